@@ -851,7 +851,7 @@ func (m *cacheModel) checkRunLoop() {
 			continue
 		}
 		seenArm[arm]++
-		recv := &Term{K: "selrecv", S: fmt.Sprint(sel.Arm), A: []*Term{sel.Res}}
+		recv := selRecvTerm(sel)
 		_ = recv
 		var calls, sends []*Effect
 		other := ""
